@@ -505,14 +505,11 @@ calc_grep_atom(const char *fmt)
 			res.pl.off_min -= 2;
 			res.pl.flags |= GRPATM_ORDINALS;
 		}
-#if 0
 		if (spec.bizda) {
 			/* account for the extra suffix character, it's
 			 * optional again */
 			res.pl.off_min -= 1;
-			res.pl.flags |= GRPATM_SUFFIX;
 		}
-#endif
 		switch (spec.spfl) {
 		case DT_SPFL_UNK:
 			/* found a non-spec character that can be
